@@ -93,6 +93,16 @@ CheckEvent(e) ==
             nd \in Occ(t) => /\ Subset(RouteRegion(t, nd), Reported(st), d)
                               /\ Subset(Strict(Reported(st)) \cup RouteRegion(t, e.subs[n].start), RouteRegion(t, nd), d),
          "path conditions reported by a traversal started below the root do not characterise the inputs routed through the node", "with-root/conditions")
+    \* edge_polytope(predicate, label): the closed half-spaces of the label (bit i set <=> row i holds; labels the predicate cannot
+    \* produce: empty); evaluate_decision(node, x): the label whose bits are the satisfied rows
+    /\ V("C09", e, "edges" \notin DOMAIN e \/ \A n \in 1..Len(e.edges) :
+            LET ed == e.edges[n]  nd == t.nodes[ed.i] IN
+            \A lb \in 1..Len(ed.labels) : ed.labels[lb].n = d /\ (~ed.labels[lb].ex \/ SetEq(PolyCons(ed.labels[lb]), ClosedConsOf(nd, lb - 1), d)),
+         "edge_polytope(predicate, label) is not the closed region of that label", "edge-polytope")
+    /\ V("C09", e, "edges" \notin DOMAIN e \/ \A n \in 1..Len(e.edges) :
+            LET ed == e.edges[n]  nd == t.nodes[ed.i] IN
+            \A k \in 1..Len(ed.decide) : ed.decide[k][2] = DecisionLabel(nd, ed.decide[k][1], e.den),
+         "evaluate_decision(node, x) is not the label whose bits are the satisfied rows", "evaluate-decision")
     \* PolyhedraIter: same items, and size_hint brackets the number of items still to come
     /\ V("C13", e, e.iter.res = "ok", "polyhedra_iter() panicked", "iter-panic")
     /\ V("C13", e, e.iter.res # "ok" \/ Items(e.iter.run.steps) = ref, "polyhedra_iter() items differ from the reference depth-first traversal", "iter-items")
